@@ -228,11 +228,16 @@ def case_st(draw, tier, pair=None):
             ch["difficulty_val"] = draw(st.integers(1, 20))
         charts.append(ch)
     case = dict(src=src, dst=dst, cls=cls, ms="exact" if exact_ms else "rounded", t0=t0, tempo=tempo, charts=charts)
-    if src in MS_FORMATS and dst in MS_FORMATS:
+    if src in MS_FORMATS:
+        # scroll velocities: carried over between osu and Quaver, mere bystanders for StepMania / BMS targets (they must
+        # not move the timeline).  Some sit before the first tempo point (legal in both formats).
         segs = _segments(tempo, exact_ms)
         svs = []
         for _ in range(draw(st.integers(0, 3))):
-            pos = draw(_next_pos(F(draw(st.integers(0, 8))), False, segs))
+            if draw(st.integers(0, 3)) == 0:
+                pos = -F(draw(st.integers(1, 8)))  # whole beats: an integer number of ms in the ms-exact class
+            else:
+                pos = draw(_next_pos(F(draw(st.integers(0, 8))), False, segs))
             svs.append([frs(pos), draw(st.sampled_from([0.5, 0.75, 1.25, 1.5, 2.0, 1.0, 0.8, 3.25]))])
         case["svs"] = sorted({s[0]: s for s in svs}.values(), key=lambda s: fr(s[0]))
     kmax = max(c["keys"] for c in charts)
@@ -766,6 +771,7 @@ def _labels(ctx, case, models):
         ctx.label("hold", bool(m["holds"]))
         ctx.label("tempo-points=%s" % min(len(m["tempo"]), 4))
         ctx.label("svs", bool(m["svs"]))
+        ctx.label("sv-before-first-tempo-point", any(fr(b) < 0 for b, _ in case.get("svs", [])))
         ctx.label("first-tempo!=0", m["tempo"][0][0] != 0)
         ctx.label("note-at-tempo-change", any(o[1] == t for o in m["hits"] + m["holds"] for t, _ in m["tempo"][1:]))
         ctx.label("hold-over-tempo-change", any(o[1] < t < o[1] + o[2] for o in m["holds"] for t, _ in m["tempo"][1:]))
